@@ -1,5 +1,7 @@
 package pongo2
 
+import "fmt"
+
 type tagCycleValue struct {
 	node  *tagCycleNode
 	value *Value
@@ -8,9 +10,25 @@ type tagCycleValue struct {
 type tagCycleNode struct {
 	position *Token
 	args     []IEvaluator
-	idx      int
 	asName   string
 	silent   bool
+}
+
+// tagCycleState is the position of a cycle tag within one execution. It is
+// kept in the execution's shared context (not in the node, which belongs to
+// the compiled template and is shared by all executions).
+type tagCycleState struct {
+	idx int
+}
+
+func (node *tagCycleNode) state(ctx *ExecutionContext) *tagCycleState {
+	key := fmt.Sprintf("pongo2.cycle.%p", node)
+	if st, ok := ctx.Shared[key].(*tagCycleState); ok {
+		return st
+	}
+	st := &tagCycleState{}
+	ctx.Shared[key] = st
+	return st
 }
 
 func (cv *tagCycleValue) String() string {
@@ -32,8 +50,9 @@ func (node *tagCycleNode) write(ctx *ExecutionContext, writer TemplateWriter, it
 }
 
 func (node *tagCycleNode) Execute(ctx *ExecutionContext, writer TemplateWriter) *Error {
-	item := node.args[node.idx%len(node.args)]
-	node.idx++
+	st := node.state(ctx)
+	item := node.args[st.idx%len(node.args)]
+	st.idx++
 
 	val, err := item.Evaluate(ctx)
 	if err != nil {
@@ -45,8 +64,9 @@ func (node *tagCycleNode) Execute(ctx *ExecutionContext, writer TemplateWriter) 
 		// {% cycle cycleitem %}
 
 		// Update the cycle value with next value
-		item := t.node.args[t.node.idx%len(t.node.args)]
-		t.node.idx++
+		tst := t.node.state(ctx)
+		item := t.node.args[tst.idx%len(t.node.args)]
+		tst.idx++
 
 		val, err := item.Evaluate(ctx)
 		if err != nil {
